@@ -20,6 +20,7 @@ COQ = os.path.join(VERIF, "coq")
 BUILD = os.path.join(VERIF, "build")
 CASES = os.path.join(BUILD, "cases")
 REPO = os.environ.get("VERIF_REPO", "/repo")   # VERIF_REPO: scratch worktree for mutation experiments only
+_REPO_KEY = "" if REPO == "/repo" else "_w" + format(abs(hash(REPO)) % (16 ** 6), "06x") if False else ("" if REPO == "/repo" else "_w" + __import__("hashlib").sha1(REPO.encode()).hexdigest()[:6])
 ENV = dict(os.environ, CARGO_NET_OFFLINE="true")
 NCPU = min(16, os.cpu_count() or 4)
 
@@ -345,7 +346,8 @@ def coq_parse(s):
 def _run_coq_shard(args):
     tag, k, prelude, exprs, timeout = args
     os.makedirs(CASES, exist_ok=True)
-    name = "cases_%s_%d" % (tag, k)
+    # keyed by the tree under test too: a check of /repo and one of a scratch worktree (VERIF_REPO) may run at the same time
+    name = "cases_%s%s_%d" % (tag, _REPO_KEY, k)
     path = os.path.join(CASES, name + ".v")
     with open(path, "w") as f:
         f.write(prelude + "\nSet Printing Width 100000000.\nSet Printing Depth 100000000.\n")
